@@ -37,7 +37,7 @@ type sizeGen struct {
 // values: one notification with 2-5 very large values below big/c[id=k] - plain (group) or atomic.
 func (f *sizeGen) values() bool {
 	t, g := f.t, f.g
-	kind := rapid.SampledFrom([]string{"group", "group", "atomic"}).Draw(t, "bigkind")
+	kind := rapid.SampledFrom([]string{"group", "atomic"}).Draw(t, "bigkind")
 	o := Op{Kind: kind, Origin: rapid.SampledFrom([]string{"", "", "oc2"}).Draw(t, "origin"),
 		Prefix: []gn.Elem{{Name: "big"}, {Name: "c", Keys: map[string]string{"id": fmt.Sprint(rapid.IntRange(0, 1).Draw(t, "bigid"))}}}}
 	k := contKey(o)
@@ -165,7 +165,15 @@ func genSizeScenario(t *rapid.T, p sizeParams) *Scenario {
 	if when != "burst" {
 		f.big()
 	}
+	if rapid.IntRange(0, 5).Draw(t, "broken") == 0 {
+		// the stream breaks: the device reports its state - the big parts as it sent them - on the next one
+		g.emit(Op{Kind: "break", Via: "error"})
+	}
 	for x := rapid.IntRange(1, 3).Draw(t, "tail"); x > 0; x-- {
+		if rapid.IntRange(0, 2).Draw(t, "drop") == 0 {
+			g.delete() // part of what the device holds (mostly of its big state) goes away again
+			continue
+		}
 		g.step()
 	}
 	tg.Ops = g.ops
